@@ -361,6 +361,13 @@ class Exec:
                 self.pending_raise.append((z3.Not(h['dom'][k]), VExc(KeyError)))
             return h['wrap'](h['val'][k])
         if isinstance(o, VTuple) and isinstance(e.slice, ast.Constant): return o.items[e.slice.value]
+        if isinstance(o, VList):
+            h = st.heap[o.cell]; idx = lift(self.ev(e.slice, st))
+            if not isinstance(idx, VInt): raise Unsupported('list index')
+            n = z3.Length(h['seq']); pos = z3.If(idx.t < 0, n + idx.t, idx.t)
+            self.pending_raise.append((z3.Or(pos < 0, pos >= n), VExc(IndexError)))
+            t = h['seq'][pos]
+            return VRef(t) if h['esort'] == Ref else VStr(t) if h['esort'] == S else VInt(t) if h['esort'] == I else (_ for _ in ()).throw(Unsupported('list element sort'))
         if isinstance(o, VStr) and isinstance(e.slice, ast.Constant) and e.slice.value == 0:
             self.pending_raise.append((z3.Length(o.t) == 0, VExc(IndexError)))
             return VStr(z3.SubString(o.t, 0, 1))
